@@ -5,6 +5,9 @@
 
   `absJ g b` reads a translated join as a model state: the number of children, the `PollState` table, the output
   slots (`OutputVec`), the `pending` counter, the `consumed` flag, the readiness set through `TieVec.abs`.
+
+  Proofs and the counterexample that made the `jcore` clause conditional on `ret = Pending` (`doneAgree` for the
+  completing poll): FcProps/KTieJoinV.lean.
 -/
 import FcGen.KSrcFam2
 import FcProps.KTieFam
@@ -43,13 +46,22 @@ structure WfJ (g : Join) : Prop where
   rs : ∀ i, i < g.roleKids.len → (g.roleStates.get i = PS.PollState.pending ∨
         (g.roleStates.get i = PS.PollState.ready ∧ ∃ v, g.roleItems.get i = some v))
 
+/-- what the two sides agree on after the poll that COMPLETES the join: the crate moves the outputs out of their slots
+    (`OutputVec::take`; the model keeps its copy in `out`, it is never read again) and resets the `len` states it has (the
+    model resets its whole table); everything else — readiness set, `pending`, number of children, offset — is the same,
+    and both are consumed -/
+def doneAgree (a m : Eng Fix) : Prop :=
+  { fcore a with st := m.s.st } = fcore m ∧ (∀ i, i < m.s.n → a.s.st i = m.s.st i) ∧
+    a.s.dead = true ∧ m.s.dead = true ∧ ∀ i, a.s.out i = none
+
 def poll_tie_statement : Prop :=
   ∀ (g : Join) (b : Eng Fix) (w : Nat),
     WfJ g → FutStepsF b.w → (∀ c i, Wk.sub i ∈ b.w.handed c → i < g.roleKids.len) → g.roleDone = false →
     ∃ g' env' ret,
       Join.poll g w ((absJ g b).w.emit (.pollBegin w)) = some (g', env', ret) ∧
       (ret = .pending → WfJ g') ∧
-      jcore (absJ g' b) = jcore (Eng.poll joinSlice (absJ g b) w) ∧
+      (ret = .pending → jcore (absJ g' b) = jcore (Eng.poll joinSlice (absJ g b) w)) ∧
+      (ret ≠ .pending → doneAgree (absJ g' b) (Eng.poll joinSlice (absJ g b) w)) ∧
       env'.scripts = (Eng.poll joinSlice (absJ g b) w).w.scripts ∧
       env'.handed = (Eng.poll joinSlice (absJ g b) w).w.handed ∧
       (Eng.poll joinSlice (absJ g b) w).w.trace = .pollEnd (outcomeOfJoin ret) :: env'.trace
